@@ -69,6 +69,15 @@ CHECKS = {
                      "site reachable from the entry points and Tracker::collect is discharged by exact key. Does not prove panic-freedom.",
                 note="Discharge reasons are reviewed arguments (tables/discharge_*.json), several rest informally on the cursor invariant; external crates trusted.",
                 ref="§4 C09; §3.7"),
+    "C10": dict(level="other", tech="finite-domain evaluation of the tracker's decision functions from typed HIR; effect-tree rules for polarity and recording scopes; call-graph inventory",
+                text="Partial: Tracker::record is evaluated over all 8 assignments of (prepared, succeeded, positive) and must push to the expected-list "
+                     "iff prepared&positive&failed and to the unexpected-list iff prepared&negative&succeeded, the lists being the ones printed under "
+                     "`Expected`/`Unexpected`; prepare: Less ignore / Equal keep / Greater clear+move; polarity saved/set/restored around the closure "
+                     "with no other writer; record_during_with: push, closure, pop, record only for leaf frames; POS/NEG nodes run their operand under "
+                     "polarity true/false; every non-silent rule expansion records itself at its start, silent ones do not; panic-capable sites "
+                     "reachable from collect are discharged and the position is re-validated.",
+                note="'Not before the consumed prefix' and truthfulness on inputs are not decided.",
+                ref="§4 C10"),
     "C12": dict(level="translation_validation", tech="sibling normal-form equality of typed HIR (repo copy vs pest source)",
                 text="Translation validation: Position::{new,line_col,line_of,find_line_start,find_line_end,at_start,at_end,...} "
                      "are shown to be the same programs as pest's (typed-HIR normal forms equal), hence equal results for every "
